@@ -276,9 +276,11 @@ def build_and_export(case):
     except Exception as e:
         res["width"] = {"reject": type(e).__name__}
     W = case["sinkw"]
+    narr = case.get("array")
     sink = h.Module(name="Sink")
-    sink.p = h.Port(width=W)
-    m.u = sink(p=conn)
+    sink.p = h.Port(width=(W // narr) if narr else W)
+    # (as an instance array wired element by element: element k takes the k-th run of the selection — what ArrayFlattener hands SliceResolver)
+    m.u = (narr * sink(p=conn)) if narr else sink(p=conn)
     # keep every leaf alive/used so that the design is otherwise valid
     keep = h.Module(name="Keep")
     keep.x = h.Port(width=widths["i0.q"])
@@ -293,6 +295,14 @@ def build_and_export(case):
         return res
     pm = observe.find_module(pkg, "Top")
     ws = observe.module_widths(pm)
+    if narr:
+        got = []
+        for k in range(narr):
+            inst = [i for i in pm.instances if i.name == f"u_{k}"][0]
+            tgt = [c.target for c in inst.connections if c.portname == "p"][0]
+            got += [[n, i] for (n, i) in observe.target_bits(tgt, ws)]
+        res["export"] = {"ok": got, "sigw": ws}
+        return res
     inst = [i for i in pm.instances if i.name == "u"][0]
     tgt = [c.target for c in inst.connections if c.portname == "p"][0]
     res["export"] = {"ok": [[n, i] for (n, i) in observe.target_bits(tgt, ws)], "sigw": ws}
@@ -413,6 +423,36 @@ def tie_bits(bits, tie):
     return [((tie[n][0], tie[n][1] + i) if n in tie else (n, i)) for (n, i) in bits]
 
 
+def array_family():
+    """Every selection of 2, 4 or 6 bits of an 8-bit bus by a plain, strided or reversed slice (direct and nested once), wired element by element to an
+    instance array of 2 (seed C03-r9-1: the stride forgotten when the array's share is cut out)."""
+    widths = {"a": 8, "b": 1, "i0.q": 1, "bb.s": 1, "bb.sub.s": 1, "e0.q": 1}
+    leaf = {"k": "leaf", "kind": "sig", "n": "a", "w": 8}
+    idxs = [{"s": a, "e": b, "st": st} for st in (None, 2, 3, -1, -2) for a in (None, 0, 1, 7, 6) for b in (None, 0, 4, 7, 8)]
+    seen = set()
+    for i in idxs:
+        for t in ({"k": "slice", "p": leaf, "i": i}, {"k": "slice", "p": {"k": "slice", "p": leaf, "i": i}, "i": {"s": 0, "e": None, "st": None}}):
+            bits = py_bits(t)
+            if bits and len(bits) in (2, 4, 6) and json.dumps(t) not in seen:
+                seen.add(json.dumps(t))
+                yield {"tree": t, "widths": widths, "sinkw": len(bits), "array": 2}
+
+
+def repeat_family():
+    """Concatenations in which the very same object stands twice — Concat(a, a), Concat(x, b, x) — and every window of them
+    (seed C03-r9-2: part offsets looked up by object identity)."""
+    widths = {"a": 4, "b": 2, "i0.q": 1, "bb.s": 1, "bb.sub.s": 1, "e0.q": 1}
+    A = {"k": "leaf", "kind": "sig", "n": "a", "w": 4}
+    B = {"k": "leaf", "kind": "sig", "n": "b", "w": 2}
+    for parts in ([A, A], [A, B, A], [B, A, A], [A, A, A]):
+        cat = {"k": "concat", "ps": parts}
+        w = sum(p["w"] for p in parts)
+        for lo in range(w):
+            for hi in range(lo + 1, w + 1):
+                t = {"k": "slice", "p": cat, "i": {"s": lo, "e": hi, "st": None}}
+                yield {"tree": t, "widths": widths, "sinkw": hi - lo}
+
+
 def tied_ref_family():
     """Exhaustive: every integer index and every unit-step range of a reference to a 4-bit port that is wired to a[lo:lo+4] of an 8-bit bus."""
     widths = {"a": 8, "b": 1, "i0.q": 4, "bb.s": 1, "bb.sub.s": 1, "e0.q": 1}
@@ -442,7 +482,7 @@ def stream_b(ctx):
         if widths["i0.q"] <= widths["a"] and rng.random() < 0.35:
             case["tie"] = {"i0_q": ["a", rng.randint(0, widths["a"] - widths["i0.q"])]}
         cases.append(case)
-    cases += list(tied_ref_family())
+    cases += list(tied_ref_family()) + list(array_family()) + list(repeat_family())
     impls = pmap(build_and_export, cases, chunk=16)
     outs = ctx.drv.run([{"prop": "C03", "op": "resolve", "conn": to_model(c["tree"])} for c in cases])
     stats = {"valid": 0, "invalid": 0, "exported": 0, "export_refused_stepped": 0}
